@@ -69,6 +69,31 @@ class Spec:
             return f[2] == "t" and f[3] != "m" and holds_t(int(f[1]))
         return False
 
+    def news(self, tok):
+        """the calls of `operator new` any.h makes inside the operation, in order (as any.h is written): h = storage of a
+        holder, v = character buffer of the copy of a held std::string (Eigen takes matrix storage from malloc, the probes
+        own nothing; a moved-from string is empty and copies without allocating)"""
+        f = tok.split(":")
+        op, s = f[0], self.slots
+        clone = lambda k: ["h", "v"] if s[k][0] == "s" and s[k][1] != -1 else ["h"]
+        if op == "ca":
+            if self.free(int(f[1])) and self.live(int(f[2])) and f[3] != "r" and s[int(f[2])] != EMPTY:
+                return clone(int(f[2]))
+        elif op == "cv":
+            if self.free(int(f[1])):
+                return ["h", "v"] if f[2] != "r" and f[3] == "s" else ["h"]
+        elif op == "aa":
+            if self.live(int(f[1])) and self.live(int(f[2])) and f[3] != "r" and s[int(f[2])] != EMPTY:
+                return clone(int(f[2]))
+        elif op == "av":
+            if self.live(int(f[1])):
+                return ["h", "v"] if f[2] != "r" and f[3] == "s" else ["h"]
+        elif op == "vc":
+            a = int(f[1])
+            if self.live(a) and s[a] != EMPTY and s[a][0] == f[2] == "s" and f[3] != "m" and s[a][1] != -1:
+                return ["v"]
+        return []
+
     def apply(self, tok, hist=None, threw=None):
         """returns the result token; mutates the state; records the model branch taken in hist.
         A leading `!` arms the throwing probe: if the operation throws, nothing changes (the strong guarantee
@@ -79,6 +104,17 @@ class Spec:
             will = self.copies_thrower(tok) if threw is None else threw
             if hist is not None:
                 b = "armed:" + tok[:2] + (":throws" if will else ":no-copy-of-thrower")
+                hist[b] = hist.get(b, 0) + 1
+            if will:
+                return "threw"
+        elif tok[0] == "~":
+            # the (j+1)-th call of operator new inside the operation fails: the operation throws and changes nothing
+            j = 1 if tok[1] == "~" else 0
+            tok = tok[j + 1:]
+            nw = self.news(tok)
+            will = (len(nw) > j) if threw is None else threw
+            if hist is not None:
+                b = "nomem:%s:new#%d:%s" % (tok[:2], j + 1, ("fails-" + {"h": "holder-storage", "v": "value-buffer"}[nw[j]]) if len(nw) > j else "not-reached")
                 hist[b] = hist.get(b, 0) + 1
             if will:
                 return "threw"
@@ -219,7 +255,7 @@ def spec_follow(line, hout):
     they did (the property does not fix how many copies an operation makes, hence not which armed operation
     throws; it does fix that a throwing operation changes nothing and leaks nothing)"""
     t = line.split()
-    full = t[2] == "F"
+    full = t[2][0] == "F"
     ops = t[3:]
     ht = hout.split()
     sp = Spec()
@@ -227,7 +263,7 @@ def spec_follow(line, hout):
     pos = 0
     for i, tok in enumerate(ops):
         obs = ht[pos] if pos < len(ht) else None
-        out.append(sp.apply(tok, threw=(obs == "threw") if tok[0] == "!" else None))
+        out.append(sp.apply(tok, threw=(obs == "threw") if tok[0] in "!~" else None))
         out.append("c=%d" % sp.probes())
         pos += 2
         if full or i == len(ops) - 1:
@@ -240,7 +276,7 @@ def spec_follow(line, hout):
 def spec_line(line, rmove=False):
     """expected output tokens (probe counters reduced to the live count) of a case line"""
     t = line.split()
-    full = t[2] == "F"
+    full = t[2][0] == "F"
     ops = t[3:]
     sp = Spec(rmove=rmove)
     out = []
@@ -253,7 +289,8 @@ def spec_line(line, rmove=False):
     return " ".join(out)
 
 
-_RVAL = re.compile(r" !?vc:\d+:[idsmpt]:r( |$)")
+_RVAL = re.compile(r" [!~]*vc:\d+:[idsmpt]:r( |$)")
+_FAULT = re.compile(r"[!~]")
 _MASK = re.compile(r"c=(-?\d+)/-?\d+/-?\d+|src=\S+")
 
 
@@ -273,7 +310,11 @@ def code_for(depth, kind, ti):
 
 def alphabet(sp, depth, tags, full=False, armed=False):
     ops = _alphabet(sp, depth, tags, full)
-    if armed:
+    if armed == "nomem":
+        # every operation in which any.h may call operator new, also with its first / second call failing
+        cp = [o for o in ops if o[:2] in ("ca", "cv", "aa", "av", "vc")]
+        ops = ops + ["~" + o for o in cp] + ["~~" + o for o in cp]
+    elif armed:
         # every operation in which any.h may copy-construct a held object, also with the throwing probe armed
         ops = ops + ["!" + o for o in ops if o[:2] in ("ca", "cv", "aa", "av", "vc")]
     return ops
@@ -347,7 +388,52 @@ def enumerate_seqs(maxlen, tags, full, hist, minlen=1, armed=False):
     return out
 
 
-def random_seq(g, idx, maxlen, hist, TAGS=TAGS, churn=False):
+# members of the sized probe family of harness/h_any.cpp (SIZED_FAMILY): <bytes><n|x> = move constructor noexcept / not;
+# a.. = alignment 16, w.. = alignment 8
+SIZED = ["1n", "1x", "4n", "8n", "8x", "9n", "16n", "16x", "17n", "17x", "24n", "24x", "25n", "25x", "32n", "32x", "33n", "33x",
+         "40n", "48n", "48x", "56n", "56x", "57n", "64n", "64x", "a16n", "a32x", "w24n", "w24x"]
+
+
+def with_member(line, member):
+    """the same case with the probe types behind the tags p / t replaced by the sized member"""
+    t = line.split(" ", 3)
+    t[2] = t[2][0] + ":" + member
+    return " ".join(t)
+
+
+def pair_seqs(tags, hist):
+    """two containers in every combination of start states (each: empty / holding tags[0] / holding tags[1] / holding a
+    tags[0] object whose value was moved out), the third slot destroyed; then every pair of operations of the full
+    alphabet over the held types `tags`; all slots are viewed after every operation, so both containers are observed
+    after each of the two operations whichever of them it named"""
+    out = []
+    kinds = ["E", "P", "X", "M"]
+    tail = ["END", "c=0", "leak=0"]
+    for i0, k0 in enumerate(kinds):
+        for k1 in kinds[i0:]:
+            sp, toks, pref, code = Spec(), [], [], 40
+            for slot, kd in ((0, k0), (1, k1)):
+                code += 1
+                ops = {"E": ["df:%d" % slot], "P": ["cv:%d:r:%s:%d" % (slot, tags[0], code)],
+                       "X": ["cv:%d:l:%s:%d" % (slot, tags[1], code)],
+                       "M": ["cv:%d:r:%s:%d" % (slot, tags[0], code), "vc:%d:%s:m" % (slot, tags[0])]}[kd]
+                for tok in ops:
+                    r = sp.apply(tok)
+                    toks.append(tok)
+                    pref += [r, "c=%d" % sp.probes()] + sp.view()
+            head = "anyseq %d F %s" % (POOL, " ".join(toks))
+            for t1 in _alphabet(sp, 1, tags, True):
+                sp1 = sp.copy()
+                r1 = sp1.apply(t1, hist)
+                p1 = pref + [r1, "c=%d" % sp1.probes()] + sp1.view()
+                for t2 in _alphabet(sp1, 2, tags, True):
+                    sp2 = sp1.copy()
+                    r2 = sp2.apply(t2, hist)
+                    out.append(("%s %s %s" % (head, t1, t2), " ".join(p1 + [r2, "c=%d" % sp2.probes()] + sp2.view() + tail)))
+    return out
+
+
+def random_seq(g, idx, maxlen, hist, TAGS=TAGS, churn=False, member=None):
     """TAGS: held types used (a size class for the address-reuse runs); churn: mostly replace / destroy /
     re-create contents and cast, on few containers, so that freed holder blocks are reused at once"""
     r = g.r
@@ -409,10 +495,10 @@ def random_seq(g, idx, maxlen, hist, TAGS=TAGS, churn=False):
             else:
                 tok = "pc:%s:%s:%d" % ("n" if r.random() < 0.1 else str(a), tag, r.randint(0, 1))
         if tok[:2] in ("ca", "cv", "aa", "av", "vc") and r.random() < (0.4 if "t" in TAGS and churn is None else 0.12):
-            tok = "!" + tok
+            tok = r.choice(["!", "!", "~", "~~"]) + tok
         sp.apply(tok, hist)
         toks.append(tok)
-    return "anyseq %d F %s" % (POOL, " ".join(toks))
+    return "anyseq %d F%s %s" % (POOL, ":" + member if member else "", " ".join(toks))
 
 
 # --------------------------------------------------------------------------- running
@@ -423,7 +509,11 @@ def run_harness_limited(binary, lines, max_crashes, timeout=None):
     outs, logs = [], {}
     env = dict(os.environ)
     env.setdefault("ASAN_OPTIONS", "detect_leaks=1:abort_on_error=0:halt_on_error=1")
-    env.setdefault("UBSAN_OPTIONS", "print_stacktrace=1")
+    # the recoverable UBSan checks (null, nonnull-attribute and — gcc routes them through the same handler — alignment)
+    # halt too: a report on stderr of a process that exits 0 would otherwise go unnoticed (round 4, M32: a small-object
+    # buffer that ignores the alignment of the held type).  Reports raised inside Eigen's own headers on empty operands
+    # are re-examined as in vlib.run_harness (vlib.benign_ubsan).
+    env.setdefault("UBSAN_OPTIONS", "print_stacktrace=1:halt_on_error=1")
     i, crashes, lsan = 0, 0, False
     if timeout is None:
         timeout = 20 + len(lines) // 300      # a clean run needs about 1 s per 3000 sequences
@@ -472,9 +562,17 @@ def run_harness_limited(binary, lines, max_crashes, timeout=None):
             raise vlib.BuildError("harness produced %d lines for %d cases" % (len(got), len(chunk)))
         ncomplete = min(len(got), len(chunk) - 1)
         outs.extend(got[:ncomplete])
-        outs.append(vlib.classify_crash(e, rc))
-        logs[len(outs) - 1] = e[-3000:]
-        crashes += 1
+        kind = vlib.classify_crash(e, rc)
+        again = None
+        if kind == "crash:ubsan" and vlib.benign_ubsan(e):
+            again = vlib._rerun_tolerating_eigen_null(binary, chunk[ncomplete], timeout, env)
+        if again is not None:
+            outs.append(again)
+            vlib.BENIGN_UBSAN_CASES.append(chunk[ncomplete][:200])
+        else:
+            outs.append(kind)
+            logs[len(outs) - 1] = e[-3000:]
+            crashes += 1
         i = len(outs)
     return outs, logs, lsan
 
@@ -530,7 +628,7 @@ def run_both(binaries, lines, workers, max_crashes=12):
 def follow(line, h, want):
     """the specification output to hold the implementation against: for histories with armed operations the one
     that throws where the implementation threw"""
-    if "!" in line and h and "crash:" not in h and not h.startswith(("throw:", "bad-")):
+    if _FAULT.search(line) and h and "crash:" not in h and not h.startswith(("throw:", "bad-")):
         try:
             return spec_follow(line, h)
         except Exception:
@@ -585,7 +683,7 @@ def shrink(binary, line, key):
     """greedy removal of operations while the same kind of failure persists"""
     t = line.split()
     head, ops = t[:3], t[3:]
-    head[2] = "F"
+    head[2] = "F" + head[2][1:]
 
     def fails(ops_):
         ln = " ".join(head + ops_)
@@ -653,6 +751,20 @@ def run(ctx):
         t1 = time.time()
         lines = [c[0] for c in cases]
         res, dout = run_both({k: BIN[k] for k in builds}, lines, workers)
+        # the value-semantic specification written in Lean (specStepX on the abstract pool, driver entry `anyspec`) on the
+        # same lines (every line of a small block, every 5th of a large one): what it prints must be what the heap model prints
+        step_ = 1 if len(lines) <= 20000 else 5
+        sub = list(range(0, len(lines), step_))
+        t2 = time.time()
+        sout = vlib.run_driver(["anyspec" + lines[i][6:] for i in sub])
+        acc["tspec"] = acc.get("tspec", 0.0) + time.time() - t2
+        for i, so in zip(sub, sout):
+            acc["leanspec"] = acc.get("leanspec", 0) + 1
+            if mask(so) != mask(dout[i]):
+                st_, dt_ = mask(so).split(), mask(dout[i]).split()
+                j = next((x for x in range(min(len(st_), len(dt_))) if st_[x] != dt_[x]), min(len(st_), len(dt_)))
+                acc["corr_bad"].append(("lean-spec-vs-model", "token %d: Lean specification %s, Lean heap model %s" % (
+                    j, st_[j] if j < len(st_) else "-", dt_[j] if j < len(dt_) else "-"), lines[i], so, dout[i], cases[i][1], "", "asan", []))
         acc["trun"] += time.time() - t1
         acc["samples"].append(lines[len(lines) // 2])
         for b in builds:
@@ -672,7 +784,7 @@ def run(ctx):
                     continue
                 if _RVAL.search(line) and not h.startswith("crash") and mask(h) == spec_line(line, rmove=True):
                     continue
-                if "!" in line and not h.startswith("crash") and mask(h) == spec_follow(line, h):
+                if _FAULT.search(line) and not h.startswith("crash") and mask(h) == spec_follow(line, h):
                     continue
                 for kind, key, what in classify(line, h, d, follow(line, h, want)):
                     key = key + "@" + build
@@ -687,7 +799,7 @@ def run(ctx):
             ops = line.split()[3:]
             acc["ops"] += len(ops)
             # non-trivial: at least two operations, one of which (after the first) is not a construction
-            if len(ops) >= 2 and any(o.lstrip("!")[:2] in ("ca", "aa", "av", "sw", "rs", "pk", "pr", "vc", "ds", "pc") for o in ops[1:]):
+            if len(ops) >= 2 and any(o.lstrip("!~")[:2] in ("ca", "aa", "av", "sw", "rs", "pk", "pr", "vc", "ds", "pc") for o in ops[1:]):
                 acc["nontrivial"].add(hl)
             if h == d and mask(h) == want:
                 continue
@@ -697,7 +809,7 @@ def run(ctx):
             if _RVAL.search(line) and not h.startswith("crash") and mask(h) == spec_line(line, rmove=True):
                 acc["mech"].append((line, h, d))      # the rvalue value cast moves the held object out: allowed
                 continue
-            if "!" in line and not h.startswith("crash") and mask(h) == spec_follow(line, h):
+            if _FAULT.search(line) and not h.startswith("crash") and mask(h) == spec_follow(line, h):
                 acc["mech"].append((line, h, d))      # another armed operation threw than in the model: not promised
                 continue
             for kind, key, what in classify(line, h, d, follow(line, h, want)):
@@ -782,6 +894,49 @@ def run(ctx):
                      "the throwing probe throws): all %d sequences of length 1..3%s; a throwing operation must change nothing (strong guarantee of "
                      "copy-and-swap, no half-constructed container) and leak nothing" % (n_thr, "" if ctx.quick() else " and of length 4 over {throwing probe}"))
         random_block(ctx.gen("any-throw"), 0, 150 if ctx.quick() else 2000, ["t", "p", "s"], None, "random-throwing[t,p,s]")
+        # allocation failure: std::string (whose copy allocates a buffer after the holder storage was obtained) and the probe
+        n_mem = enum_block("nomem<=3[s,p]", 3, ["s", "p"], False, builds=("asan", "plain"), armed="nomem")
+        rules.append("allocation failure: reduced alphabet over held types {string, probe} in which every operation that may call operator new "
+                     "also occurs with its first (`~op`: the storage of the holder; for value casts the buffer of the returned copy) and its second "
+                     "(`~~op`: the buffer of the held string copy, after the holder storage was obtained) call throwing std::bad_alloc: all %d "
+                     "sequences of length 1..3; a failing operation must throw, change nothing and leak nothing" % n_mem)
+        # ---- held types of every size class, with and without a noexcept move constructor, with a throwing copy constructor:
+        # the same reduced enumeration for every member of the sized probe family (the model does not depend on the member)
+        t1 = time.time()
+        base = enumerate_seqs(3, ["p", "t"], False, hist)
+        acc["tgen"] += time.time() - t1
+        n_sized = 0
+        members = SIZED if not ctx.quick() else SIZED      # every member in every run
+        cases = []
+        for mb in members:
+            cases += [(with_member(l, mb), w, "sized<=3[p,t]") for l, w in base]
+        n_sized = len(cases)
+        process("sized<=3[p,t]", cases, ("asan", "plain"))
+        gs = ctx.gen("any-sized")
+        cases = []
+        per = 6 if ctx.quick() else 60
+        for mi, mb in enumerate(members):
+            for i in range(per):
+                ln = random_seq(gs, mi * per + i, 40, hist, ["t", "p", "s", "i"], None, member=mb)
+                cases.append((ln, spec_line(ln), "random-sized"))
+        process("random-sized", cases)
+        rules.append("held types of every size class: for each of the %d members of a family of instance-counted probes of exactly 1, 4, 8, 9, 16, 17, "
+                     "24, 25, 32, 33, 40, 48, 56, 57, 64 bytes (alignment 1; 16 and 32 bytes with alignment 16; 24 bytes with alignment 8), each with a "
+                     "noexcept and with a potentially throwing move constructor, each with a variant whose copy constructor throws on demand: all %d "
+                     "reduced-alphabet sequences of length 1..3 over the two variants (%d cases) and %d random sequences of length <= 40 with armed "
+                     "operations" % (len(members), len(base), n_sized, per * len(members)))
+        # ---- every pair of operations on two containers, both observed after each
+        comp = (["t"] + others)[ctx.seed % 5] if ctx.quick() else None
+        n_pairs = 0
+        for o in ([comp] if comp else ["t"] + others):
+            t1 = time.time()
+            ps = pair_seqs(["p", o], hist)
+            acc["tgen"] += time.time() - t1
+            n_pairs += len(ps)
+            process("pairs[p,%s]" % o, [(l, w, "pairs") for l, w in ps], ("asan", "plain") if o in ("i", "d", "t") else ("asan",))
+        rules.append("pairs: two containers in each of the 10 unordered combinations of start states {empty, holding a probe, holding a %s, holding a "
+                     "probe whose value was moved out} (third slot destroyed), then every pair of operations of the full alphabet over these two held "
+                     "types, all slots viewed after every operation: %d sequences" % ("T (T = throwing probe, string, matrix, int, double in turn)" if not comp else TAG_NAME[comp], n_pairs))
         # address reuse: held types of one allocation size class (holder<int|double|probe>: 16 bytes,
         # holder<string|MatrixXd>: 40 / 32 bytes, one malloc bin each), so that a new holder of another type
         # lands on the block of a destroyed one.  Only meaningful without ASan's quarantine.
@@ -868,6 +1023,7 @@ def run(ctx):
         "sanitizer_crashes": sum(1 for p in prop_bad if p[0].startswith("crash")),
         "generation_s": round(acc["tgen"], 2), "harness_and_driver_s": round(acc["trun"], 2),
         "mechanism_only_differences": len(mech),
+        "lean_spec_lines_compared_with_model": acc.get("leanspec", 0), "lean_spec_driver_s": round(acc.get("tspec", 0.0), 2),
     })
     if mech:
         line, h, d = mech[0]
@@ -879,5 +1035,6 @@ def run(ctx):
     ctx.assumptions += [
         "moved-from state of std::string (empty), Eigen::MatrixXd (0x0) and of the probe (id -1) as produced by libstdc++ / Eigen 3.4 / the harness",
         "operations on destroyed containers are undefined behaviour and are not executed on the implementation (both sides print inv)",
-        "exceptions thrown by the constructors of held types (bad_alloc, throwing copy constructors) are not modelled",
+        "a copy of a std::string of the pool (70 characters) calls operator new exactly once, a copy of an empty (moved-from) string, of an "
+        "Eigen matrix (malloc) and of the probes never: libstdc++ / Eigen as installed; the harness replaces the global operator new",
     ]
